@@ -263,12 +263,13 @@ def r2_pb(ctx, repo):
         ctx.inconclusive("R2", C, where(doe, fn), "expected the 12- and 20-run seed constructions, found %d" % n_tables, key="seeds")
     # Sylvester doubling
     dbl = [s for s in stmts_of(fn) if isinstance(s, ast.For)]
+    TP = Terms(fn)
     okd = False
     detail = "doubling loop not found"
     for lp in dbl:
         for s in lp.body:
             if isinstance(s, ast.Assign) and isinstance(s.value, ast.Call) and (access_path(s.value.func) or "").endswith("vstack"):
-                t = text(s.value).replace(" ", "").replace("np.", "")
+                t = text(TP.expand(s.value, at=s)).replace(" ", "").replace("np.", "")
                 hv = access_path(s.targets[0])
                 shapes = ("vstack((hstack(({h},{h})),hstack(({h},-{h}))))".format(h=hv), "vstack([hstack([{h},{h}]),hstack([{h},-{h}])])".format(h=hv))
                 okd = t in shapes
@@ -489,7 +490,8 @@ def r3_bb(ctx, repo):
             # the middle level: for key in D: if len(D[key]) == 2: D[key].append(mean of the two); D[key].sort()
             for lp in [s_ for s_ in bb.body if isinstance(s_, ast.For) and access_path(s_.iter) == d_ and isinstance(s_.target, ast.Name)]:
                 key = lp.target.id
-                apps = [s_ for s_ in stmts_of(lp) if isinstance(s_, ast.Expr) and is_method(s_.value, "append") and len(s_.value.args) == 1]
+                apps = [s_ for s_ in stmts_of(lp) if isinstance(s_, ast.Expr) and is_method(s_.value, "append") and len(s_.value.args) == 1
+                        and text(TB.expand(s_.value.func.value, at=s_)) == "%s[%s]" % (d_, key)]
                 sorts = [s_ for s_ in stmts_of(lp) if isinstance(s_, ast.Expr) and is_method(s_.value, "sort")]
                 if len(apps) == 1 and sorts:
                     recv = text(TB.expand(apps[0].value.func.value, at=apps[0]))
@@ -524,8 +526,17 @@ def r4_gsd_partial(ctx, repo):
                 oki = poly.equal(c3.elt, poly.parse("%s + (%s - 1) * %s" % (pi, li, P)))
                 ifs = c3.generators[0].ifs
                 okg = None
+                if len(ifs) == 1 and isinstance(ifs[0], ast.UnaryOp) and isinstance(ifs[0].op, ast.Not) and isinstance(ifs[0].operand, ast.Compare) \
+                        and len(ifs[0].operand.ops) == 1 and type(ifs[0].operand.ops[0]) in (ast.Gt, ast.GtE, ast.Lt, ast.LtE):
+                    # level indices are integers: not (a > b) is a <= b
+                    c_ = ifs[0].operand
+                    inv = {ast.Gt: ast.LtE, ast.GtE: ast.Lt, ast.Lt: ast.GtE, ast.LtE: ast.Gt}[type(c_.ops[0])]
+                    ifs = [ast.Compare(left=c_.left, ops=[inv()], comparators=c_.comparators)]
                 if len(ifs) == 1 and isinstance(ifs[0], ast.Compare) and len(ifs[0].ops) == 1:
                     t = ifs[0]
+                    if not poly.equal(t.left, c3.elt) and poly.equal(t.comparators[0], c3.elt) and type(t.ops[0]) in (ast.Gt, ast.GtE, ast.Lt, ast.LtE):
+                        mir = {ast.Gt: ast.Lt, ast.GtE: ast.LtE, ast.Lt: ast.Gt, ast.LtE: ast.GtE}[type(t.ops[0])]
+                        t = ast.Compare(left=t.comparators[0], ops=[mir()], comparators=[t.left])
                     same = poly.equal(t.left, c3.elt)
                     if same and access_path(t.comparators[0]) == nl:
                         okg = isinstance(t.ops[0], ast.LtE)
